@@ -57,10 +57,10 @@ def configs(tier):
 
 def run(tier, seed, only=None):
     cs = filt(configs(tier), only)
-    META['bounds'] = {'dims': '1..3', 'depth': '1..3', 'operation sequences': '<= 5 steps after the initial load; listed sequences plus solver-enumerated ones (each ? ranges over the 7-9 operations of the family: quick 2 free steps, thorough 3)', 'path classes per configuration': '8 (quick) / 30 (thorough)'}
+    META['bounds'] = {'dims': '1..3', 'depth': '1..3', 'operation sequences': '<= 5 steps after the initial load; listed sequences plus solver-enumerated ones (each ? ranges over the 7-9 operations of the family: quick 2 free steps, thorough 3)', 'path classes per configuration': '8-90 (quick) / 30-500 (thorough), the larger budgets for solver-chosen histories'}
     ks = ksets(tier) if (not only or 'K-sets' in only) else []
     if only: ks = [k for k in ks if __import__('re').search(only, k.name)]
     META.setdefault('functions_encoded', []).append('MultiIndexSet::{addSortedIndexes, operator+=, operator-, getSlot, removeIndex, MultiIndexSet(Data2D)} and StorageSet::addValues via clang -O1 IR -> ir2c -> CBMC (engine K): for ALL strictly sorted index sets of the enumerated sizes '
                                                      '(<= 3x3 multi-indexes in 2-D, 4x4 in 1-D, entries in a small range) the merge is sorted/duplicate-free/complete, the difference is exact, the binary search finds exactly the present indexes and the merged values sit at the position of their index')
-    META['bounds']['engine K (index sets)'] = 'sizes enumerated: quick 2x2 (merge, values), 2x1 (difference), 3 (search/removal, sort+unique); thorough up to 3x3 in 2-D, 4x4 in 1-D, 2x2 in 3-D; entries in [0,2] (2-D), [0,8] (1-D), [0,1] (3-D); unwinding assertions on; non-constant heap requests served from 256-byte blocks (asserted sufficient)'
+    META['bounds']['engine K (index sets)'] = 'sizes enumerated: quick 2x2 (merge, values), 2x1 (difference), 3 (search/removal, sort+unique); thorough up to 3x3 in 2-D (set difference up to 2x2), 4x4 in 1-D, 2x2 in 3-D; entries in [0,2] (2-D), [0,8] (1-D), [0,1] (3-D); unwinding assertions on; non-constant heap requests served from 256-byte blocks (asserted sufficient)'
     return runner.run_property('C07', cs, tier, seed, META, ks)
